@@ -37,7 +37,12 @@ def templates : List (Option (List Seg)) := [
   some [.fld "Version", .lit b!":", .fld "AVName", .lit b!"=", .fld "AVValue"],
   some [.fld "BaseMetrics", .lit b!"/", .fld "Vector", .lit b!"/", .fld "Version"],
   none,
-  none]
+  none,
+  -- texts that define a named sub-template "cell" (a different body in each) and apply it: what the engine renders
+  some [.lit b!"<1:", .fld "SeverityValue", .lit b!"> <1:", .fld "Vector", .lit b!">"],
+  some [.lit b!"<2:", .fld "SeverityValue", .lit b!"> <2:", .fld "Vector", .lit b!">"],
+  some [.lit b!"[3:", .fld "Version", .lit b!"]-[3:", .fld "SeverityName", .lit b!"]"],
+  some [.lit b!"(4)", .fld "Vector"]]
 
 def depth (path : String) : Nat := (path.splitOn ".").length
 
